@@ -409,6 +409,10 @@ func (n *lazyNode) equal(o *lazyNode) bool {
 				return false
 			}
 
+			if v.isNull() && ov.isNull() {
+				continue
+			}
+
 			if (v == nil) != (ov == nil) {
 				return false
 			}
@@ -1125,6 +1129,11 @@ func (p Patch) test(doc *container, op Operation, options *ApplyOptions) error {
 	}
 
 	ov := op.value()
+
+	if val.isNull() && ov.isNull() {
+		// a null stored by an earlier add or replace is a non-nil node
+		return nil
+	}
 
 	if val == nil {
 		if ov.isNull() {
